@@ -247,7 +247,15 @@ func (zzMSSC) Protocol() types.ProtocolName { return "zzp" }
 // zzMapping gives the proxy a status code for the scripted upstream's replies.
 type zzMapping struct{}
 
+// zzHTTPFamily: the upstream protocol reports the response status through the
+// x-mosn-status variable of the request context, as the HTTP/1 and HTTP/2 client streams do
+// (the variable outlives the attempt that set it).
+var zzHTTPFamily bool
+
 func (zzMapping) MappingHeaderStatusCode(ctx context.Context, h api.HeaderMap) (int, error) {
+	if zzHTTPFamily {
+		return protocol.GetStatusCodeMapping{}.MappingHeaderStatusCode(ctx, h)
+	}
 	if h == nil {
 		return 0, protocol.ErrNoMapping
 	}
@@ -381,20 +389,61 @@ func VerifC10_ProxyRetrySlot() {
 	zzEventMachine(true)
 }
 
+// zzRetryingRoute restricts the event machine to a route that retries (retry_on, budget 2):
+// the configuration in which "retried only under the configured conditions" and "the
+// global timeout ends the request" interact (VerifC17_RetryEndsAtGlobalTimeout).
+var zzRetryingRoute bool
+
+// VerifC17_RetryEndsAtGlobalTimeout: on a retrying route, whatever the order of upstream
+// replies (200 / 503, status in the frame or in the request variable), resets, timer
+// expiries and a client disconnect: the request ends with one reply and no timer armed -
+// in particular the expiry of the global timeout is final, it never starts another attempt
+// that would run without a timeout.
+func VerifC17_RetryEndsAtGlobalTimeout() {
+	zzRetryingRoute = true
+	zzEventMachine(false)
+}
+
+// zzWithTerminate adds a fifth kind of event: a stream filter that kept its handler
+// answers the request itself (TerminateStream) at an arbitrary moment.
+var zzWithTerminate bool
+
+// (VerifC03_ThoroughFilterTerminates_T runs the event machine with that event in the thorough tier;
+// the quick tier has the scripted VerifC03_RefusedTerminate.)
+func VerifC03_FilterTerminates_T() {
+	zzRetryingRoute, zzWithTerminate = true, true
+	zzEventMachine(false)
+}
+
 func zzEventMachine(accounting bool) {
 	verif.Switches(0) // the environment acts exactly when the worker is blocked or done
 	if accounting {
 		zzMaxRetries = 1
 	}
-	retryOn := verif.Choose("retry_on", 2) == 1
+	retryOn := zzRetryingRoute || verif.Choose("retry_on", 2) == 1
 	zzTryTimeout = time.Duration(verif.Choose("try_timeout", 2)) * time.Second
-	ds, sender, pool, p, ctx := zzMachine(uint32(verif.Choose("num_retries", 2)), retryOn)
+	zzHTTPFamily = verif.Choose("status_through_variable", 2) == 1
+	// retry budget: none or two in the quick tier (two: a retry can be followed by another), 0..2 in the thorough tier
+	budget := uint32(2)
+	if !zzRetryingRoute {
+		budget = uint32(2 * verif.Choose("num_retries", 2))
+	}
+	if verif.Tier() > 0 && !zzRetryingRoute {
+		budget = uint32(verif.Choose("num_retries_t", 3))
+	}
+	ds, sender, pool, p, ctx := zzMachine(budget, retryOn)
 	zzTryTimeout, zzMaxRetries = 0, 0
 	pool.scripted = true
 	cm := p.clusterManager.(*zzMCM)
 	cm.mayEmpty = accounting
 	retries := cm.host.info.rm.Retries()
 	active0 := p.stats.DownstreamRequestActive.Count()
+	kf := &zzKeepFilter{}
+	nEvents := 4
+	if zzWithTerminate {
+		ds.streamFilterChain.AddStreamReceiverFilter(kf, api.AfterChooseHost)
+		nEvents = 5
+	}
 	done := false
 	clientGone := false
 	raced := false // a timer expired while an upstream outcome (reset or reply) was recorded and unprocessed
@@ -409,11 +458,21 @@ func zzEventMachine(accounting bool) {
 	}
 	for i := 0; i < events && !done; i++ {
 		verif.Assert(sender.headers <= 1, "the client got two responses")
-		switch verif.Choose("event", 4) {
+		switch verif.Choose("event", nEvents) {
+		case 4: // a stream filter answers the request itself
+			if kf.handler != nil {
+				kf.handler.TerminateStream(504)
+				verif.Cover("terminate")
+			}
 		case 0: // the upstream answers
 			if ur := ds.upstreamRequest; ur != nil && ur.requestSender != nil {
 				status := []string{"200", "503"}[verif.Choose("status", 2)]
-				ur.OnReceive(ctx, protocol.CommonHeader{"status": status}, nil, nil)
+				if zzHTTPFamily {
+					variable.SetString(ctx, types.VarHeaderStatus, status)
+					ur.OnReceive(ctx, protocol.CommonHeader{}, nil, nil)
+				} else {
+					ur.OnReceive(ctx, protocol.CommonHeader{"status": status}, nil, nil)
+				}
 				verif.Cover("reply")
 			}
 		case 1: // the upstream stream is reset
@@ -847,5 +906,66 @@ func VerifC03_TimeoutDuringBackoff() {
 	verif.Assert(done, "engine: every armed timeout expired but the request is still waiting")
 	verif.Assert(sender.headers == 1, "a request whose upstream never answers must get exactly one (timeout) reply")
 	verif.Assert(p.stats.DownstreamRequestActive.Count() == active0-1, "DownstreamRequestActive not released after the timeout")
+	verif.Cover("end")
+}
+
+// VerifC03_RefusedTerminate: the first attempt is answered with a retriable 503 on a
+// retrying route; while the retry is in flight a stream filter tries to terminate the
+// stream. The abandoned answer is still recorded, so the termination is refused - and a
+// refused termination must have no effect: the retry's answer (or, if the upstream stays
+// silent, a timeout) still reaches the client, exactly once, and the request is cleaned up.
+func VerifC03_RefusedTerminate() {
+	verif.Switches(0)
+	zzHTTPFamily = verif.Choose("status_through_variable", 2) == 1
+	ds, sender, pool, p, ctx := zzMachine(2, true)
+	pool.scripted = true
+	active0 := p.stats.DownstreamRequestActive.Count()
+	kf := &zzKeepFilter{}
+	ds.streamFilterChain.AddStreamReceiverFilter(kf, api.AfterChooseHost)
+	done := false
+	go func() {
+		ds.OnReceive(ctx, protocol.CommonHeader{}, nil, nil)
+		done = true
+	}()
+	verif.Settle()
+	ur := ds.upstreamRequest
+	verif.Assume(!done && ur != nil && ur.requestSender != nil && kf.handler != nil)
+	if zzHTTPFamily {
+		variable.SetString(ctx, types.VarHeaderStatus, "503")
+		ur.OnReceive(ctx, protocol.CommonHeader{}, nil, nil)
+	} else {
+		ur.OnReceive(ctx, protocol.CommonHeader{"status": "503"}, nil, nil)
+	}
+	verif.Settle()
+	ur2 := ds.upstreamRequest
+	verif.Assume(!done && ur2 != nil && ur2 != ur && ur2.requestSender != nil) // the retry is waiting for its upstream
+	verif.Cover("retry in flight")
+	accepted := kf.handler.TerminateStream(504)
+	verif.Settle()
+	if accepted {
+		verif.Assert(done && sender.headers == 1, "an accepted termination must be the request's one reply")
+	} else {
+		verif.Cover("refused")
+		if verif.Choose("retry_answered", 2) == 1 {
+			if zzHTTPFamily {
+				variable.SetString(ctx, types.VarHeaderStatus, "200")
+				ur2.OnReceive(ctx, protocol.CommonHeader{}, nil, nil)
+			} else {
+				ur2.OnReceive(ctx, protocol.CommonHeader{"status": "200"}, nil, nil)
+			}
+			verif.Settle()
+			verif.Assert(done && sender.headers == 1, "after a refused termination the retry's answer did not reach the client")
+		} else {
+			verif.EngineOnly("timer expiry is driven by the engine's timer table")
+			for k := 0; k < 4 && !done && verif.NumTimers() > 0; k++ {
+				verif.FireTimer(0)
+				verif.Settle()
+			}
+			verif.Assert(done && sender.headers == 1, "engine: after a refused termination and a silent upstream no timeout ends the request (hangs)")
+		}
+	}
+	if done {
+		verif.Assert(p.stats.DownstreamRequestActive.Count() == active0-1, "the request ended but DownstreamRequestActive was not released exactly once")
+	}
 	verif.Cover("end")
 }
